@@ -1,5 +1,6 @@
 import Proofs.SubmitDuring
 import Proofs.SubmitFault
+import Proofs.SubmitFaultHist
 
 /-!
 # C06 — every committed block reaches the DA layer in order; the watermark is sound
@@ -659,5 +660,181 @@ theorem rollback_on_failed_persist_decreases :
     ¬ (rollbackTrace {} false 3).Pairwise (· ≤ ·) ∧
     (raiseWmRollback true {} false 3).1.n.hdrWm < 3 ∧ (raiseWmF true {} false 3).1.n.hdrWm = 3 := by
   decide
+
+/-- **A whole submission with failed persists is the fault-free submission, up to the image.**  For every number `nf` of
+armed faults (the next `nf` `SetMetadata` calls of `setLastSubmittedHeight` fail), every node and every list of DA answers:
+the retry loop `submitLoopF` (any kind, any fuel, any item list), the header tick `headersIterF` and the data tick
+`dataIterF` — the functions the driver executes — return **the node of the fault-free `submitLoop` / `headersIter` /
+`dataIter` with only the store replaced** (`ANode.withStore`: in-memory watermarks, marks, DA double, DA-included height,
+`SetFinal` log, last state are the same), the same `Submit` calls and the same outcome; the writes issued are a
+**sublist `l` of the fault-free writes** (the failed persists are missing), the store is the old store with exactly `l`
+applied (the fault-free store is the old store with all writes applied), and one fault is consumed per missing write. -/
+theorem C06_failed_persist_tick (nf : Nat) (a : ANode) (script : List DAAns) :
+    (∀ (d : Bool) (fuel : Nat) (items : List Item),
+      let r := submitLoop d fuel a items script [] []
+      let rF := submitLoopF d fuel nf a items script [] []
+      ∃ l, l.Sublist r.2.1 ∧ rF.1 = (r.1.withStore (a.n.store.applyAll l), l, r.2.2.1, r.2.2.2) ∧
+        rF.2 ≤ nf ∧ r.2.1.length = l.length + (nf - rF.2)) ∧
+    (let r := headersIter a script
+     let rF := headersIterF nf a script
+     r.1.n.store = a.n.store.applyAll r.2.1 ∧
+     ∃ l, l.Sublist r.2.1 ∧ rF.1 = (r.1.withStore (a.n.store.applyAll l), l, r.2.2.1, r.2.2.2) ∧
+       rF.2 ≤ nf ∧ r.2.1.length = l.length + (nf - rF.2) ∧
+       rF.1.1.n.hdrWm = r.1.n.hdrWm ∧ rF.1.1.n.dataWm = r.1.n.dataWm ∧ rF.1.1.hMarks = r.1.hMarks ∧
+       rF.1.1.dMarks = r.1.dMarks ∧ rF.1.1.daBlobs = r.1.daBlobs ∧ rF.1.1.daInc = r.1.daInc) ∧
+    (let r := dataIter a script
+     let rF := dataIterF nf a script
+     r.1.n.store = a.n.store.applyAll r.2.1 ∧
+     ∃ l, l.Sublist r.2.1 ∧ rF.1 = (r.1.withStore (a.n.store.applyAll l), l, r.2.2.1, r.2.2.2) ∧
+       rF.2 ≤ nf ∧ r.2.1.length = l.length + (nf - rF.2) ∧
+       rF.1.1.n.hdrWm = r.1.n.hdrWm ∧ rF.1.1.n.dataWm = r.1.n.dataWm ∧ rF.1.1.hMarks = r.1.hMarks ∧
+       rF.1.1.dMarks = r.1.dMarks ∧ rF.1.1.daBlobs = r.1.daBlobs ∧ rF.1.1.daInc = r.1.daInc) := by
+  refine ⟨fun d fuel items => ?_, ?_, ?_⟩
+  · obtain ⟨l, lf, h1, h2, h3, h4, h5⟩ := submitLoopF_sim d fuel nf a a.n.store items script [] [] []
+    rw [List.nil_append] at h2
+    rw [withStore_self] at h3 h4 h5
+    exact ⟨l, by rw [h2]; exact h1, by rw [h5]; simp, h3, by rw [h2]; exact h4⟩
+  · obtain ⟨_, hi, _⟩ := headersIter_iter a script
+    have hs := headersIterF_sim nf a script
+    obtain ⟨m1, m2, m3, m4, m5, _, _, m8, _⟩ := hs.mem
+    obtain ⟨l, h1, h2, h3, h4⟩ := hs
+    exact ⟨hi.store, l, h1, h4, h2, h3, m1, m2, m3, m4, m5, m8⟩
+  · obtain ⟨_, hi, _⟩ := dataIter_iter a script
+    have hs := dataIterF_sim nf a script
+    obtain ⟨m1, m2, m3, m4, m5, _, _, m8, _⟩ := hs.mem
+    obtain ⟨l, h1, h2, h3, h4⟩ := hs
+    exact ⟨hi.store, l, h1, h4, h2, h3, m1, m2, m3, m4, m5, m8⟩
+
+/-- **C06 with failed persists, all histories.**  Let the initial height be any `≥ 1` and let the node be reached from
+the fresh node by **any** list of actions `ActF`: everything `C06` allows (production steps, header / data ticks with any DA
+answers, inclusion passes, clean restarts, crash restarts, crashes after any number `k` of the durable writes of the last
+action) **and ticks during which any number `nf` of watermark persists fail** (`ActF.subHF nf script`, `ActF.subDF nf
+script`: the node `headersIterF` / `dataIterF` leave; a crash after such a tick cuts the writes that were issued).  Then
+
+1. both watermarks in memory lie in `[initialHeight − 1, chain height]`;
+2. soundness: every height `initialHeight ≤ h ≤ hdrWm` is a stored block whose header blob the DA double holds, every
+   height `initialHeight ≤ h ≤ dataWm` is a stored block that is empty or whose data blob the DA double holds;
+3. the persisted copies are parsable and **at most the values in memory** (`PLe`; after a failed persist strictly less);
+4. **a restart** (clean or crash) **succeeds and resumes from the persisted values** `hw`, `dw` (raised to
+   `initialHeight − 1`), which are at most the values in memory; chain height and DA double are kept; the restarted node
+   is the next state of the history — so 1–3 hold of it: nothing at or below the reloaded watermark is missing from DA, and
+   what lies between the reloaded and the lost in-memory value is pending again (submitted twice, never skipped);
+5. a crash after any number `k` of the writes issued by the last action (also a faulty tick) restarts successfully into
+   the next state of the history;
+6. **between restarts the watermarks in memory never decrease**: not by a production step, a fault-free tick or an
+   inclusion pass, and a tick with failed persists leaves exactly the in-memory watermarks of the fault-free tick. -/
+theorem C06_with_failed_persists (c : Cfg) (hpos : 1 ≤ c.initialHeight) (acts : List ActF) :
+    let σ := runRF c (freshC c) acts
+    let a := σ.a
+    (c.initialHeight - 1 ≤ a.n.hdrWm ∧ a.n.hdrWm ≤ a.n.store.height) ∧
+    (c.initialHeight - 1 ≤ a.n.dataWm ∧ a.n.dataWm ≤ a.n.store.height) ∧
+    (∀ h, c.initialHeight ≤ h → h ≤ a.n.hdrWm → ∃ b dh, a.n.store.getBlock h = some b ∧ b.sh.hdr.height = h ∧
+      (dh, false, h) ∈ a.daBlobs) ∧
+    (∀ h, c.initialHeight ≤ h → h ≤ a.n.dataWm → ∃ b, a.n.store.getBlock h = some b ∧
+      (b.data.txs = [] ∨ ∃ dh, (dh, true, h) ∈ a.daBlobs)) ∧
+    (PLe false a ∧ PLe true a) ∧
+    (∀ clean, ∃ a' hw dw, restart c a a.n.store clean = some a' ∧
+      wmOf a.n.store (wmKey false) = some hw ∧ wmOf a.n.store (wmKey true) = some dw ∧
+      hw ≤ a.n.hdrWm ∧ dw ≤ a.n.dataWm ∧ a'.n.hdrWm = wmRaise c hw ∧ a'.n.dataWm = wmRaise c dw ∧
+      a'.n.hdrWm ≤ a.n.hdrWm ∧ a'.n.dataWm ≤ a.n.dataWm ∧
+      a'.n.store.height = a.n.store.height ∧ a'.daBlobs = a.daBlobs ∧
+      (runRF c (freshC c) (acts ++ [.base (.restart clean)])).a = a') ∧
+    (∀ k, ∃ ac, restart c a (σ.base.applyPrefix k σ.ws) false = some ac ∧
+      (runRF c (freshC c) (acts ++ [.base (.crash k)])).a = ac ∧ ac.daBlobs = a.daBlobs) ∧
+    (∀ x : Act, a.n.hdrWm ≤ (stepRF c σ (.base (.act x))).a.n.hdrWm ∧
+      a.n.dataWm ≤ (stepRF c σ (.base (.act x))).a.n.dataWm) ∧
+    (∀ nf s, (stepRF c σ (.subHF nf s)).a.n.hdrWm = (headersIter a s).1.n.hdrWm ∧
+      a.n.hdrWm ≤ (stepRF c σ (.subHF nf s)).a.n.hdrWm ∧ (stepRF c σ (.subHF nf s)).a.n.dataWm = a.n.dataWm) ∧
+    (∀ nf s, (stepRF c σ (.subDF nf s)).a.n.dataWm = (dataIter a s).1.n.dataWm ∧
+      a.n.dataWm ≤ (stepRF c σ (.subDF nf s)).a.n.dataWm ∧ (stepRF c σ (.subDF nf s)).a.n.hdrWm = a.n.hdrWm) := by
+  intro σ a
+  have ci : CI c σ := (CI_fresh c hpos).runRF acts
+  have r : R c a := ci.r
+  have l1 := r.low
+  have l2 := r.dlow
+  refine ⟨⟨by omega, r.le⟩, ⟨by omega, r.dle⟩, r.acc, r.dacc, ⟨r.ph, r.pd⟩, fun clean => ?_, fun k => ?_, fun x => ?_,
+    fun nf s => ?_, fun nf s => ?_⟩
+  · obtain ⟨a', h, _, f⟩ := r.restart clean
+    obtain ⟨hw, dw, e1, e2, e3, e4⟩ := restart_resumes h
+    obtain ⟨w1, p1, q1⟩ := r.ph
+    obtain ⟨w2, p2, q2⟩ := r.pd
+    have z1 : hw = w1 := by rw [p1] at e1; exact (Option.some.inj e1).symm
+    have z2 : dw = w2 := by rw [p2] at e2; exact (Option.some.inj e2).symm
+    have h1 := f.hdrWm
+    have h2 := f.dataWm
+    rw [wmRaise_eq r.low] at h1
+    rw [wmRaise_eq r.dlow] at h2
+    refine ⟨a', hw, dw, h, e1, e2, by rw [z1]; exact q1, by rw [z2]; exact q2, e3, e4, h1, h2, f.height, f.daBlobs, ?_⟩
+    show (List.foldl (stepRF c) (freshC c) (acts ++ [.base (.restart clean)])).a = a'
+    rw [List.foldl_append]
+    show (match Submit.restart c σ.a σ.a.n.store clean with
+      | some a' => (⟨a', σ.a.n.store, []⟩ : CSt)
+      | none => σ).a = a'
+    rw [h]
+  · obtain ⟨ac, h, _, f⟩ := ci.cuts k
+    refine ⟨ac, h, ?_, f.daBlobs⟩
+    show (List.foldl (stepRF c) (freshC c) (acts ++ [.base (.crash k)])).a = ac
+    rw [List.foldl_append]
+    show (match Submit.restart c σ.a (σ.base.applyPrefix k σ.ws) false with
+      | some a' => (⟨a', σ.base.applyPrefix k σ.ws, []⟩ : CSt)
+      | none => σ).a = ac
+    rw [h]
+  · show a.n.hdrWm ≤ (stepAW c a x).1.n.hdrWm ∧ a.n.dataWm ≤ (stepAW c a x).1.n.dataWm
+    rw [stepAW_fst]; exact stepA_wm_mono c a x
+  · obtain ⟨m1, m2, _⟩ := (headersIterF_sim nf a s).mem
+    obtain ⟨_, hi, _⟩ := headersIter_iter a s
+    refine ⟨m1, ?_, ?_⟩
+    · show a.n.hdrWm ≤ (headersIterF nf a s).1.1.n.hdrWm
+      rw [m1]; exact hi.wmMono
+    · show (headersIterF nf a s).1.1.n.dataWm = a.n.dataWm
+      rw [m2]; exact hi.frame.otherWm
+  · obtain ⟨m1, m2, _⟩ := (dataIterF_sim nf a s).mem
+    obtain ⟨_, hi, _⟩ := dataIter_iter a s
+    refine ⟨m2, ?_, ?_⟩
+    · show a.n.dataWm ≤ (dataIterF nf a s).1.1.n.dataWm
+      rw [m2]; exact hi.wmMono
+    · show (dataIterF nf a s).1.1.n.hdrWm = a.n.hdrWm
+      rw [m1]; exact hi.frame.otherWm
+
+/-- without faulty ticks these are the histories of `C06` -/
+theorem C06_with_failed_persists_extends (c : Cfg) (acts : List ActR) :
+    runRF c (freshC c) (acts.map .base) = runR c (freshC c) acts := runRF_base c _ acts
+
+/-- two blocks (the first empty); a header tick with one armed fault whose first chunk (height 1) is acknowledged — the
+persist fails — and which is then cancelled: 1 in memory, 0 on disk, no write issued (the fault-free tick issues one); a
+data tick whose only persist fails: 2 in memory, 0 on disk; **a crash restart resumes from 0 and 0**; the next ticks
+resubmit header 1 and the data of block 2 (both twice on the DA double: nothing skipped) and bring both watermarks to 2,
+now persisted.  With the answers `ok 1, ok` instead, the second persist (height 2) succeeds and heals the lag. -/
+def fpActs : List ActF :=
+  [.base (.act (.produce (.batch [[5]] 150 []) .ok)), .base (.act (.produce (.batch [[6]] 200 []) .ok)),
+   .subHF 1 [.ok (some 1), .canceled], .subDF 3 [], .base (.restart false), .base (.act (.subH [])), .subDF 0 []]
+
+example :
+    let s2 := runRF xCfg (freshC xCfg) (fpActs.take 2)
+    let s3 := runRF xCfg (freshC xCfg) (fpActs.take 3)
+    let s4 := runRF xCfg (freshC xCfg) (fpActs.take 4)
+    let s5 := runRF xCfg (freshC xCfg) (fpActs.take 5)
+    let s7 := runRF xCfg (freshC xCfg) fpActs
+    let h := headersIterF 1 s2.a [.ok (some 1), .ok none]
+    (s3.a.n.hdrWm, wmOf s3.a.n.store (wmKey false), s3.ws.length) = (1, some 0, 0) ∧
+    (headersIter s2.a [.ok (some 1), .canceled]).2.1.length = 1 ∧
+    (headersIter s2.a [.ok (some 1), .ok none]).2.1.length = 2 ∧
+    (s4.a.n.hdrWm, s4.a.n.dataWm) = (1, 2) ∧
+    (wmOf s4.a.n.store (wmKey false), wmOf s4.a.n.store (wmKey true)) = (some 0, some 0) ∧
+    (s5.a.n.hdrWm, s5.a.n.dataWm) = (0, 0) ∧
+    (s7.a.n.hdrWm, s7.a.n.dataWm) = (2, 2) ∧
+    (wmOf s7.a.n.store (wmKey false), wmOf s7.a.n.store (wmKey true)) = (some 2, some 2) ∧
+    s7.a.daBlobs.map (fun e => (e.2.1, e.2.2)) = [(true, 2), (false, 2), (false, 1), (true, 2), (false, 1)] ∧
+    (h.1.1.n.hdrWm, wmOf h.1.1.n.store (wmKey false), h.1.2.1.length, h.2) = (2, some 2, 1, 0) := by
+  decide +kernel
+
+/-- a crash inside a tick with a failed persist (fault-free writes: 1, 2; issued: 2): cut before the write that was issued
+the node restarts from 0, after it from 2 -/
+example :
+    let s2 := runRF xCfg (freshC xCfg) (fpActs.take 2)
+    let t := stepRF xCfg s2 (.subHF 1 [.ok (some 1), .ok none])
+    (t.a.n.hdrWm, t.ws.length) = (2, 1) ∧
+    (stepRF xCfg t (.base (.crash 0))).a.n.hdrWm = 0 ∧ (stepRF xCfg t (.base (.crash 1))).a.n.hdrWm = 2 := by
+  decide +kernel
 
 end Spec.C06
